@@ -116,4 +116,13 @@ CHECKS = {
         "design_ref": "DESIGN.md section 3, C06",
         "note": "Calibration isolation is exercised in C10/C11's run-level parts (snapshot before/after). K1 class excluded as in C05.",
     },
+    "C09": {
+        "level": "fault_enumeration",
+        "technique": "fault injection with exhaustive enumeration of the fault site (run, step, model position) for Hypothesis-generated pipelines, modes and exception classes; oracle on the propagated exception chain and on the probe call log",
+        "text": "For each generated configuration (2..4 models in 1..3 groups, 1..3 steps, 1..3 runs, 12 exception classes, exposure / debug / sequential / dask-synchronous / dask-threads) every fault site is "
+                "executed: the call or compute() must raise with the unique token, the injected type, group and model name and (sequentially) the run's parameter values; no result object, no later call, "
+                "no computable bucket of the failing run. Fault enumeration: complete per configuration, configurations sampled.",
+        "design_ref": "DESIGN.md section 3, C09",
+        "note": "Calibration-phase faults are enumerated in the calibration part once registered. The dask metadata run may surface the fault at run_mode.",
+    },
 }
